@@ -132,10 +132,10 @@ def run(ctx):
         elif typ == 1:
             N = ctx.rng.randint(0, 20)
             ms = ctx.rng.choice([0, 1, 3, 10, 25])
-            none = r % 8 == 1
+            none = ctx.rng.random() < 0.15
             vals = [ctx.rng.randint(1, 6) for _ in range(N)]
             strs = [f"CAS{v}F" for v in vals]
-            form = r % 3
+            form = ctx.rng.choice([0, 1, 2, 2])
             ev = dict(op="Downsample", items=vals, ms=ms, none=none, same=False, ret=[], raised=False)
             try:
                 np.random.seed(sid)
@@ -144,11 +144,14 @@ def run(ctx):
                 elif form == 1:
                     data = np.array(strs, dtype=object)
                 else:
-                    data = pd.DataFrame(dict(CDR3B=strs, v=vals), index=[f"r{i}" for i in range(N)])
+                    # index labels: unique, or repeated as in a pd.concat of several samples without ignore_index
+                    index = [f"r{i}" for i in range(N)] if ctx.rng.random() < 0.4 else [i % 3 for i in range(N)]
+                    data = pd.DataFrame(dict(CDR3B=strs, v=vals, uid=list(range(N))), index=index)
                 ret = prs.downsample(data, None if none else ms)
                 ev["same"] = ret is data
                 if form == 2:
-                    ok_rows = all(ret.loc[i, "CDR3B"] == data.loc[i, "CDR3B"] for i in ret.index) and ret.index.is_unique and set(ret.index) <= set(data.index)
+                    uids = [int(u) for u in ret["uid"]]
+                    ok_rows = len(set(uids)) == len(uids) and all(ret["CDR3B"].iloc[k] == strs[u] and int(ret["v"].iloc[k]) == vals[u] for k, u in enumerate(uids))
                     ev["ret"] = [int(v) for v in ret["v"]] if ok_rows else [-5]
                 else:
                     ev["ret"] = [int(s[3:-1]) for s in list(ret)]
